@@ -10,6 +10,10 @@ From AV Require LatEngine.LatKeys.
 From AV Require LatEngine.LatSem.
 From AV Require Engine.ParLat.
 From AV Require Engine.ParLatProofs.
+From AV Require LatEngine.LatPlan.
+From AV Require LatEngine.LatMain.
+From AV Require LatEngine.LatParModel.
+From AV Require LatEngine.LatParMain.
 Import ListNotations.
 
 (* every input row is still there, unmodified and in place; evaluation appends only tuples that were absent, each once *)
@@ -82,10 +86,26 @@ Proof.
   - exact (ParLatProofs.parlat_rows_in_place keqb Hk le jm Hl mx kfirst true dl tt R0 nk0 ot0 ch0 work Hi sched).
 Qed.
 
-(* PARTIAL: the parallel lattice statement is per iteration (the per-iteration theorems are not yet composed into a whole
-   parallel lattice engine run: C02's PARTIAL note); the real DashMap entry operation / RwLock / Mutex are assumed atomic
-   (C19 proves the one-winner property for every interleaving of the modelled atomic steps: Props/C19.v
-   c19_cfi_concurrent_one_winner). *)
+(* ... and for a WHOLE ascent_par! run over lattice relations (every SCC, every iteration, any number of workers, one global
+   schedule of all atomic head-update steps, rule bodies reading any value a row has had so far): one row per key at the end, and
+   the input rows are still there, in place, with values that only went up (LatEngine/LatParMain.v; same hypotheses as C02 / C03) *)
+Theorem c05_parallel_lattice_run_one_row_per_key :
+  forall (V : Type) (I : LatSyntax.linterp V) islat lle jm arities P pl Rin st,
+  LatSyntax.veqb_ok I -> (forall r, islat r = true -> LatSem.lat_laws (lle r) (jm r)) ->
+  arities_functional arities -> no_agg P = true -> LatSem.monotone_program I islat lle P ->
+  validate arities P pl = true -> LatPlan.lat_plan_ok islat arities pl = true ->
+  LatMain.input_ok I islat lle arities Rin ->
+  LatParModel.par_lat_run_plan I islat jm pl Rin st ->
+  forall r, islat r = true -> NoDup (map LatSyntax.tkey (LatEval.l_rows st r)).
+Proof.
+  intros V I islat lle jm arities P pl Rin st H1 H2 H3 H4 H5 H6 H7 H8 H9.
+  exact (LatParMain.par_lat_run_unique_key I H1 islat lle jm H2 arities H3 P H4 H5 pl H6 H7 Rin H8 st H9).
+Qed.
+
+(* RESIDUE: the real DashMap entry operation / RwLock / Mutex are assumed atomic (C19 proves the one-winner property for every
+   interleaving of the modelled atomic steps: Props/C19.v c19_cfi_concurrent_one_winner); lattice programs WITH aggregation are
+   exercised through ascent_par! by the tie only. *)
 
 Print Assumptions c05_inputs_kept_rows_added_once. Print Assumptions c05_rows_are_a_set. Print Assumptions c05_parallel_rows_added_once.
 Print Assumptions c05_parallel_rows_are_a_set. Print Assumptions c05_lattice_one_row_per_key. Print Assumptions c05_parallel_lattice_one_row_per_key.
+Print Assumptions c05_parallel_lattice_run_one_row_per_key.
